@@ -87,6 +87,11 @@ type session struct {
 
 	pending       []pendingWrite
 	refusedBefore map[string]bool // (target, credential) refused in the phase before any valid login
+	findings      []finding
+	undecided     []string
+	evals         int
+	counts        map[string]int64
+	distincts     []string
 	history       []string
 	dead          bool
 }
@@ -219,18 +224,78 @@ func (s *session) phases() (before, valid, after []credState) {
 	return
 }
 
+// Findings are buffered per attempt: they only count when the server process
+// was still running at the end of the attempt. A server that could not bind
+// one of its ports exits right away (main.go log.Fatal); the ports come from
+// lib.FreePort and can be taken by another process in between, in which case
+// connections would reach somebody else's listener. "Still running at the end"
+// implies our process held all of its listeners during the whole attempt.
+type finding struct {
+	key, what string
+	detail    any
+}
+
+func (s *session) violate(key, what string, detail any) {
+	s.findings = append(s.findings, finding{key, what, detail})
+}
+
+// Counters are buffered the same way, so that the evidence only counts probes
+// of server processes that survived.
+func (s *session) eval()                 { s.evals++ }
+func (s *session) count(k string)        { s.counts[k]++ }
+func (s *session) distinct(parts ...any) { s.distincts = append(s.distincts, fmt.Sprint(parts...)) }
+
+func (s *session) inconclusive(why string) {
+	if len(s.undecided) < 8 {
+		s.undecided = append(s.undecided, why)
+	}
+}
+
 func (s *session) run() {
 	r := s.r
-	s.tag = fmt.Sprintf("seed%d-cfg%d-round%d-%08x", r.Seed, s.idx, s.cfg.Round, s.rng.Uint32())
+	const attempts = 5
+	for a := 1; a <= attempts; a++ {
+		s.findings, s.undecided, s.pending, s.history, s.dead = nil, nil, nil, nil, false
+		s.refusedBefore = map[string]bool{}
+		s.evals, s.probes, s.counts, s.distincts = 0, 0, map[string]int64{}, nil
+		retry := s.attempt(a)
+		if !retry {
+			r.EvalN(s.evals)
+			for k, v := range s.counts {
+				r.CountN(k, v)
+			}
+			for _, d := range s.distincts {
+				r.Distinct(d)
+			}
+			for _, f := range s.findings {
+				r.Violation(f.key, f.what, f.detail)
+			}
+			for _, w := range s.undecided {
+				r.Inconclusive(w)
+			}
+			return
+		}
+		r.Count("fixture.server-restarted-after-port-clash-or-early-exit")
+	}
+	r.Inconclusive(fmt.Sprintf("server for %s could not be kept running in %d attempts: %v", s.cfg, attempts, s.undecided))
+}
+
+// attempt runs the whole matrix against one server process; it returns true
+// when the process did not survive (nothing observed in it is used).
+func (s *session) attempt(n int) (retry bool) {
+	r := s.r
+	s.tag = fmt.Sprintf("seed%d-cfg%d-round%d-try%d-%08x", r.Seed, s.idx, s.cfg.Round, n, s.rng.Uint32())
 	dir := lib.MkTemp("c13-cache")
 	defer func() { _ = os.RemoveAll(dir) }()
 	child, err := lib.StartBinary(lib.BinaryOpts{Dir: dir, Args: s.cfg.args(s.mat), TLS: s.cfg.TLS})
 	if err != nil {
-		r.Inconclusive(fmt.Sprintf("server did not start for %s: %v", s.cfg, err))
+		s.inconclusive(fmt.Sprintf("server did not start for %s: %v", s.cfg, err))
 		if child != nil && child.Cmd != nil && child.Cmd.Process != nil {
 			child.Stop()
+		} else if child != nil && child.LogPath != "" {
+			_ = os.Remove(child.LogPath)
 		}
-		return
+		return true
 	}
 	s.child = child
 	defer child.Stop()
@@ -239,14 +304,14 @@ func (s *session) run() {
 
 	s.setup, err = newClient(s.cfg, s.mat, child.HTTPAddr, child.GRPCAddr, s.validCred())
 	if err != nil {
-		r.Inconclusive("client: " + err.Error())
-		return
+		s.inconclusive("client: " + err.Error())
+		return false
 	}
 	defer s.setup.close()
 	if !s.prepare() {
-		return
+		// A process that lost the race for a port is on its way out.
+		return child.WaitExit(3 * time.Second)
 	}
-	r.Count("cfg." + s.cfg.String())
 
 	before, valid, after := s.phases()
 	for _, ph := range []struct {
@@ -254,22 +319,29 @@ func (s *session) run() {
 		states []credState
 	}{{"before-valid-login", before}, {"valid", valid}, {"after-valid-login", after}} {
 		for _, cs := range ph.states {
-			if s.dead {
-				return
+			if s.dead || child.Exited() {
+				break
 			}
 			s.probeState(ph.name, cs)
 		}
 		s.postCheck(ph.name)
 	}
-	if p, what := child.Panicked(); p {
-		// Not an authentication verdict (C14's domain); the matrix is incomplete.
-		r.Inconclusive(fmt.Sprintf("server %s panicked during the probes: %.300s", s.cfg, what))
+	if child.Exited() {
+		if p, what := child.Panicked(); p {
+			// Not an authentication verdict (C14's domain); the matrix is incomplete.
+			s.findings = nil
+			s.undecided = []string{fmt.Sprintf("server %s panicked during the probes: %.300s", s.cfg, what)}
+			return false
+		}
+		s.inconclusive(fmt.Sprintf("server %s exited during the probes: %.300s", s.cfg, child.LogTail(300)))
+		return true
 	}
+	s.count("cfg." + s.cfg.String())
+	return false
 }
 
 // prepare stores the entries that read probes and destructive-method probes aim at.
 func (s *session) prepare() bool {
-	r := s.r
 	s.casPresent = mkBlob(s.fresh("present-cas"))
 	s.spliceCommon = mkBlob(s.fresh("splice-common"))
 	dirMsg := &pb.Directory{Files: []*pb.FileNode{{Name: "f-" + s.tag, Digest: s.casPresent.digest()}}}
@@ -290,16 +362,16 @@ func (s *session) prepare() bool {
 		res := s.setup.do("PUT", p.path, p.body)
 		if res.Err != nil || res.Status != 200 {
 			if res.Status == 401 || res.Status == 403 {
-				s.r.Violation(fmt.Sprintf("C13:http:%s:metrics-%s:valid-refused", classOf(p.path), onoff(s.cfg.Metrics)),
+				s.violate(fmt.Sprintf("C13:http:%s:metrics-%s:valid-refused", classOf(p.path), onoff(s.cfg.Metrics)),
 					"preparation write with valid credentials was refused",
 					s.detail(map[string]any{"method": "PUT", "path": p.path, "status": res.Status, "credential": s.setup.cred.Name}))
 			}
-			r.Inconclusive(fmt.Sprintf("preparation PUT %s on %s failed: status=%d err=%v log=%.300s", p.path, s.cfg, res.Status, res.Err, s.child.LogTail(300)))
+			s.inconclusive(fmt.Sprintf("preparation PUT %s on %s failed: status=%d err=%v log=%.300s", p.path, s.cfg, res.Status, res.Err, s.child.LogTail(300)))
 			return false
 		}
 	}
 	if !s.presentIntact() {
-		r.Inconclusive("prepared entries not readable with valid credentials on " + s.cfg.String())
+		s.inconclusive("prepared entries not readable with valid credentials on " + s.cfg.String())
 		return false
 	}
 	return true
@@ -323,7 +395,6 @@ func (s *session) presentIntact() bool {
 // postCheck: everything written without valid credentials must be absent, and
 // the prepared entries must be unchanged.
 func (s *session) postCheck(phase string) {
-	r := s.r
 	if s.dead {
 		return
 	}
@@ -333,13 +404,13 @@ func (s *session) postCheck(phase string) {
 			path = "/ac/" + p.Hash
 		}
 		res := s.setup.do("HEAD", path, nil)
-		r.Eval()
-		r.Count("poststate.lookups")
+		s.eval()
+		s.count("poststate.lookups")
 		switch {
 		case res.Err != nil:
-			r.Inconclusive(fmt.Sprintf("post-state lookup %s failed on %s: %v", path, s.cfg, res.Err))
+			s.inconclusive(fmt.Sprintf("post-state lookup %s failed on %s: %v", path, s.cfg, res.Err))
 		case res.Status == 404:
-			r.Count("poststate.absent")
+			s.count("poststate.absent")
 		case res.Status == 200:
 			key := ""
 			if p.Proto == "http" {
@@ -347,24 +418,24 @@ func (s *session) postCheck(phase string) {
 			} else {
 				key = fmt.Sprintf("C13:grpc:%s:%s:unauthenticated-write-stored", p.Target, s.cfg.authName())
 			}
-			r.Violation(key, fmt.Sprintf("entry written without valid credentials (%s) is stored: %s", p.Cred, path),
+			s.violate(key, fmt.Sprintf("entry written without valid credentials (%s) is stored: %s", p.Cred, path),
 				s.detail(map[string]any{"write": p, "lookup": path, "lookup_status": res.Status}))
 		default:
-			r.Inconclusive(fmt.Sprintf("post-state lookup %s on %s: unexpected status %d", path, s.cfg, res.Status))
+			s.inconclusive(fmt.Sprintf("post-state lookup %s on %s: unexpected status %d", path, s.cfg, res.Status))
 		}
 		if p.Origin != "" && s.origin.hitCount(p.Origin) > 0 {
-			r.Count("poststate.origin-contacted")
+			s.count("poststate.origin-contacted")
 		}
 	}
 	s.pending = s.pending[:0]
-	r.Eval()
+	s.eval()
 	if s.presentIntact() {
-		r.Count("poststate.prepared-entries-intact")
+		s.count("poststate.prepared-entries-intact")
 	} else if !s.alive() {
 		s.dead = true
-		r.Inconclusive(fmt.Sprintf("server %s went away during phase %s: %.300s", s.cfg, phase, s.child.LogTail(300)))
+		s.inconclusive(fmt.Sprintf("server %s went away during phase %s: %.300s", s.cfg, phase, s.child.LogTail(300)))
 	} else {
-		r.Violation(fmt.Sprintf("C13:state:%s:prepared-entry-changed", s.cfg.authName()),
+		s.violate(fmt.Sprintf("C13:state:%s:prepared-entry-changed", s.cfg.authName()),
 			"an entry stored with valid credentials changed or disappeared during requests without valid credentials",
 			s.detail(map[string]any{"phase": phase}))
 	}
@@ -373,7 +444,7 @@ func (s *session) postCheck(phase string) {
 func (s *session) probeState(phase string, cs credState) {
 	c, err := newClient(s.cfg, s.mat, s.child.HTTPAddr, s.child.GRPCAddr, cs)
 	if err != nil {
-		s.r.Inconclusive("client: " + err.Error())
+		s.inconclusive("client: " + err.Error())
 		return
 	}
 	defer c.close()
